@@ -197,7 +197,7 @@ Qed.
 Lemma acm_section g ids s :
   GInv g ids -> sec_counter_ok s -> ACM (heap g) -> ACM (heap (fst (sec_step g s))).
 Proof.
-  intros G Hk A. destruct s as [c k|c k|c k [b|]|[x|]|[x|]]; cbn [sec_step fst sec_counter_ok] in *; try exact A.
+  intros G Hk A. destruct s as [c k|c k|c k [b|]|[x|]|[x|]|]; cbn [sec_step fst sec_counter_ok] in *; try exact A.
   - eapply acm_link_back; eauto.
   - eapply acm_link_front; eauto.
   - rewrite (is_live_iff g ids b G). destruct (existsb (Nat.eqb b) ids) eqn:E; cbn [fst].
